@@ -103,6 +103,85 @@ def _work(H, chunk):
     return viols, ncalls, len(chunk), samp
 
 
+DEEP = {'quick': 1200, 'thorough': 3000}          # beyond CPython's default recursion limit (1000); several selectors are quadratic in the depth
+
+
+def _deep_docs(bs4, N):
+    """the depth pump: the one-to-three level trees of MC_C08_shapes stretched to DEEP levels (html.parser builds such trees from
+    unclosed tags in a few milliseconds).  Dom.tla / CssDecl.tla define every tree relation by recursion on the depth without a bound;
+    the code has to get there without the interpreter's call stack."""
+    out = []
+    out.append(('chain', 'html.parser', '<html lang="en"><body>' + '<div>' * N + '<p id="leaf">x</p>' + '</div>' * N + '</body></html>'))
+    out.append(('auto-top', 'html.parser', '<html><body><div dir="auto">' + '<span>' * N + '\u05d0<b id="leaf">y</b>' + '</span>' * N + '</div></body></html>'))
+    out.append(('controls', 'html.parser', '<form><fieldset disabled>' + '<div>' * N + '<input id="leaf" type="text" dir="auto" value=""><input type="radio" name="g">'
+                '<button>b</button>' + '</div>' * N + '</fieldset><input type="submit"></form>'))
+    out.append(('xml', 'xml', '<r xml:lang="en">' + '<a>' * N + '<b id="leaf">x</b>' + '</a>' * N + '</r>'))
+    out.append(('iframe', 'html.parser', '<html><body><iframe>' + '<div>' * N + '<p id="leaf" dir="auto"></p>' + '</div>' * N + '</iframe><p>z</p></body></html>'))
+    res = []
+    for name, parser, markup in out:
+        import warnings
+        warnings.simplefilter('ignore')
+        soup = bs4.BeautifulSoup(markup, parser)
+        leaf = soup.find(id='leaf')
+        res.append((name, soup, leaf))
+    return res
+
+
+def _deep_work(H, chunk):
+    sv, bs4 = H['sv'], H['bs4']
+    if 'deep' not in H:
+        H['deep'] = _deep_docs(bs4, DEEP[H.get('tier', 'quick')])
+    out = []
+    for css in chunk:
+        try:
+            obj = sv.compile(css, namespaces={'svg': 'urn:svg'})
+        except Exception:
+            continue
+        for name, soup, leaf in H['deep']:
+            top = [t for t in soup.contents if isinstance(t, bs4.Tag)][0]
+            calls = [('select', lambda: obj.select(soup, 3)), ('select_one', lambda: obj.select_one(soup)), ('match(leaf)', lambda: obj.match(leaf)),
+                     ('closest(leaf)', lambda: obj.closest(leaf)), ('filter(top)', lambda: obj.filter(top)), ('match(top)', lambda: obj.match(top)),
+                     ('select(leaf.parent)', lambda: obj.select(leaf.parent))]
+            for cname, fn in calls:
+                try:
+                    signal.alarm(60)
+                    try:
+                        fn()
+                    finally:
+                        signal.alarm(0)
+                    out.append((css, name, cname, None))
+                except _Timeout:
+                    out.append((css, name, cname, 'no termination within 60 s'))
+                except BaseException as ex:  # noqa  (RecursionError is an Exception; MemoryError etc. are reported too)
+                    out.append((css, name, cname, type(ex).__name__))
+    return out
+
+
+def _deep_part(chk, tier):
+    import multiprocessing as mp
+    sv, bs4 = common.import_repo()
+    sels = _selectors(sv) + ['div p', 'div > p', ':has(> p)', ':has(p)', 'p:dir(ltr)', 'b:dir(rtl)', 'input:dir(ltr)', ':is(div div) p', ':not(span b)',
+                             'p:lang(en)', 'b:lang(en)', ':nth-child(1 of div p)', 'div ~ p', 'a b', 'a > b', ':disabled', 'input:read-write', ':root :empty']
+    if tier == 'quick':
+        sels = [x for n, x in enumerate(sels) if n % 3 == common.SEED % 3 or 'dir' in x or 'lang' in x or 'has' in x or 'disabled' in x or 'contains' in x]
+    chunks = [[x] for x in sels]
+
+    def init(H):
+        _init(H)
+        H['tier'] = tier
+    with mp.get_context('fork').Pool(16, initializer=replay._ginit, initargs=([], init)) as pool:
+        outs = pool.map(replay._gwork, [(_deep_work, c) for c in chunks], chunksize=1)
+    n = 0
+    for out in outs:
+        for css, name, cname, err in out:
+            n += 1
+            if err:
+                chk.violation('deep|%s|%s|%s' % (css, name, err), '%s of %r on the %d-level document "%s": %s' % (cname, css, DEEP[tier], name, err),
+                              {'cfg': 'deep', 'selector': css, 'doc': name, 'call': cname, 'group': 'deep %s %s' % (err, css)})
+    chk.count(n, traces=n)
+    chk.notes['deep'] = {'levels': DEEP[tier], 'documents': 5, 'selectors': len(sels), 'calls': n}
+
+
 def _type_error_part(chk):
     """TypeError is raised exactly when the call target is not a Tag"""
     sv, bs4 = common.import_repo()
@@ -201,7 +280,7 @@ def _order_part(chk):
 def main(tier):
     chk = common.Check('C08', tier)
     chk.assumptions += ['value shapes: strings for every attribute; lists and odd API values (None, numbers, bytes, nested lists) only on attributes that '
-                        'attribute/class/id selectors read (class, id, t)', 'nesting below the interpreter recursion budget']
+                        'attribute/class/id selectors read (class, id, t)', 'depth: exhaustive up to 3 levels, plus five %d-level documents (depth pump)' % DEEP[tier]]
     for variant, must_hold in (('guarded', True), ('reordered', True), ('asis', False)):
         cfg = replay.write_cfg('order_' + variant, {'Order': None}, invariants=('Defined',)) if False else None
         import os, tempfile
@@ -230,6 +309,7 @@ def main(tier):
     if tier == 'thorough':
         replay.stream(chk, 'MC_C08_shapes', {'NAttrs': 2, 'Contexts': '{"rooted", "xhtml"}', 'TypeFirst': 'FALSE', 'OnlyInput': 'TRUE'},
                       'shapes2', _work, _init, is_header=lambda v: False, chunk=8)
+    _deep_part(chk, tier)
     _type_error_part(chk)
     _order_part(chk)
     return chk.finish()
